@@ -58,6 +58,21 @@ func observeAccount(g accountGetter, a *acct) *acctObs {
 	return o
 }
 
+// touchSet: the accounts a fee-paying transaction declares (one is enough under the
+// world lock, whose first access realizes the whole base).
+func (w *world) touchSet(spec *txSpec) []*acct {
+	set := []*acct{w.cfg.eoas[spec.from]}
+	if spec.kind == kScore && !spec.isolated {
+		return set
+	}
+	for _, a := range w.all {
+		if a.addr.Equal(spec.to) && !a.addr.Equal(set[0].addr) {
+			set = append(set, a)
+		}
+	}
+	return set
+}
+
 // observe reads, through the transaction's own context, the accounts the
 // transaction may touch under its lock declaration.
 func (w *world) observe(ctx contract.Context, spec *txSpec) map[string]*acctObs {
@@ -260,7 +275,13 @@ func (f *finalState) diff(m *modelState) string {
 }
 
 func (f *finalState) equal(g *finalState) string {
-	for n, v := range f.bal {
+	names := make([]string, 0, len(f.bal))
+	for k := range f.bal {
+		names = append(names, k)
+	}
+	sort.Strings(names)
+	for _, n := range names {
+		v := f.bal[n]
 		if g.bal[n] == nil || g.bal[n].Cmp(v) != 0 {
 			return fmt.Sprintf("balance of %s: %v vs %v", n, v, g.bal[n])
 		}
